@@ -28,6 +28,7 @@ type SpecEnv struct {
 	at    *ssa.BasicBlock // program point for local name resolution
 	inOld bool
 	tolerant bool
+	paramsAtEntry bool
 	loads []Term // heap values of reference/slice sort read while evaluating (outside quantifiers)
 	toleranceUsed bool
 	anyBlock bool
@@ -392,6 +393,30 @@ func (env *SpecEnv) localName(name string) (SVal, bool) {
 	fr := env.fr
 	fn := env.fn
 	ft := env.ft
+	// in postconditions a parameter name denotes the value at entry (unless a
+	// local of the same name shadows it)
+	if env.paramsAtEntry {
+		for _, p := range fn.Params {
+			if p.Name() != name {
+				continue
+			}
+			shadowed := false
+			for _, b := range fn.Blocks {
+				for _, ins := range b.Instrs {
+					if d, ok := ins.(*ssa.DebugRef); ok {
+						if o := d.Object(); o != nil && o.Name() == name && o.Pos() != p.Pos() {
+							shadowed = true
+						}
+					}
+				}
+			}
+			if !shadowed {
+				if v, ok := fr.vals[p]; ok {
+					return SVal{T: ft.termOf(v, p.Type()), Typ: p.Type(), V: &v}, true
+				}
+			}
+		}
+	}
 	// phis at the program point first (loop variables), then the most recent
 	// binding of the identifier according to the debug information (handles
 	// shadowing), then parameters / captured variables / named allocs.
@@ -412,6 +437,7 @@ func (env *SpecEnv) localName(name string) (SVal, bool) {
 		var best ssa.Value
 		var bestBlock *ssa.BasicBlock
 		var bestAddr bool
+		var bestObj types.Object
 		for _, b := range fn.Blocks {
 			if env.at != nil && !(b == env.at || b.Dominates(env.at)) {
 				continue
@@ -423,6 +449,7 @@ func (env *SpecEnv) localName(name string) (SVal, bool) {
 			for _, ins := range b.Instrs {
 				var val ssa.Value
 				isAddr := false
+				var obj types.Object
 				switch d := ins.(type) {
 				case *ssa.Phi:
 					if d.Comment != name {
@@ -433,7 +460,7 @@ func (env *SpecEnv) localName(name string) (SVal, bool) {
 					if id := d.Object(); id == nil || id.Name() != name {
 						continue
 					}
-					val, isAddr = d.X, d.IsAddr
+					val, isAddr, obj = d.X, d.IsAddr, d.Object()
 				default:
 					continue
 				}
@@ -443,7 +470,50 @@ func (env *SpecEnv) localName(name string) (SVal, bool) {
 					continue
 				}
 				if bestBlock == nil || bestBlock == b || bestBlock.Dominates(b) {
-					best, bestBlock, bestAddr = val, b, isAddr
+					best, bestBlock, bestAddr, bestObj = val, b, isAddr, obj
+				}
+			}
+		}
+		// in postconditions a parameter name denotes the value at entry, even if
+		// the body reassigns the parameter variable
+		if best != nil && env.paramsAtEntry {
+			for _, p := range fn.Params {
+				if p.Name() != name {
+					continue
+				}
+				if bestObj == nil || p.Pos() == bestObj.Pos() {
+					if v, ok := fr.vals[p]; ok {
+						return SVal{T: ft.termOf(v, p.Type()), Typ: p.Type(), V: &v}, true
+					}
+				}
+			}
+		}
+		// a variable that lives in a heap cell (captured or escaping local): its
+		// value at any time is the content of the cell in that state
+		if best != nil && !bestAddr && bestObj != nil {
+			var cell ssa.Value
+			for _, fv := range fn.FreeVars {
+				if fv.Pos() == bestObj.Pos() {
+					cell = fv
+				}
+			}
+			if cell == nil {
+				for _, b := range fn.Blocks {
+					for _, ins := range b.Instrs {
+						if a, ok := ins.(*ssa.Alloc); ok && a.Heap && a.Pos() == bestObj.Pos() {
+							if _, have := fr.vals[a]; have {
+								cell = a
+							}
+						}
+					}
+				}
+			}
+			if cell != nil {
+				if v, ok := fr.vals[cell]; ok {
+					sv := SVal{T: ft.termOf(v, cell.Type()), Typ: cell.Type(), V: &v}
+					if d, err := env.deref(sv); err == nil {
+						return d, true
+					}
 				}
 			}
 		}
